@@ -96,6 +96,17 @@ CLAIMS["C13"] = (
     "difference, recorded as a note. Rule D7 was added after seed C13-a was missed.",
     "DESIGN.md 4/C13")
 
+CLAIMS["C20"] = (
+    "who-may-call + branch-edge dominance for the objective, guard-form check of every best-position write, must-pass-after cache coherence of ParticleSwarmState mutators, per-iteration "
+    "structure, OpenMP placement of random draws",
+    "Static rule discharge over ParticleSwarm(), its two lambdas and the state class: the objective is reachable only through the domain-filtered buffer (appended on the true edge of "
+    "inside(candidate) for that candidate); every write of a best-known position, value or flag is dominated by 'particle inside' and by 'no best yet or strictly smaller', the compared "
+    "value being the stored one, and the three are written together, for the particle and the swarm slot; every public mutator of the best positions invalidates the cached best values; "
+    "the swarm-best branch is re-evaluated each iteration; random numbers are drawn outside parallel regions.",
+    "Equality of n+m and n-then-m iterations for a given random stream and value equality of the caches are runtime facts, not decided; D4 (branch re-evaluated inside the loop) is the "
+    "structural necessary condition for the former and was added after seed C20-b was known.",
+    "DESIGN.md 4/C20")
+
 PENDING = {}
 
 NOT_APPLICABLE = {}
